@@ -600,10 +600,10 @@ proof fn witness_rst_none()
     reveal_with_fuel(rst_scan, 2);
 }
 
-//@@ fn src/xlsx/mod.rs read_string props=C19,C06 ret=r
+//@@ fn src/xlsx/mod.rs read_string props=C19,C06,C01 ret=r
 //@@ sig
     ensures
-        //# C19.reader_events_frame
+        //# C19,C01.reader_events_frame
         final(xml).events() == old(xml).events() && final(xml).pos() >= old(xml).pos(),
         //# C01,C19.plain_first_t
         ({ let it = rst_item(old(xml).events(), old(xml).pos() as int, __arg1.0@);
